@@ -149,6 +149,34 @@ def run(ctx):
                 res.violations.append({"clause": "parallel == serial, element for element", "route": name, "n": n,
                                        "block": b, "series": series, "kwargs": repr(kw), "serial": serial,
                                        "parallel": par})
+    # ---- OpenMP runtimes that grant fewer threads than requested (thread limit / dynamic adjustment): sub-processes
+    envs = [{"OMP_NUM_THREADS": "4", "OMP_THREAD_LIMIT": "2"}, {"OMP_NUM_THREADS": "7", "OMP_THREAD_LIMIT": "3"},
+            {"OMP_NUM_THREADS": "64", "OMP_DYNAMIC": "true"}, {"OMP_NUM_THREADS": "6", "OMP_SCHEDULE": "dynamic,2"}]
+    if not ctx.thorough:
+        envs = envs[:3]
+    jobs = []
+    for k in range(6 if ctx.thorough else 3):
+        n = rng.randint(5, 12)
+        ndim = 1 if k % 3 else 2
+        series = c06.make_series(rng, n, ndim, k % 2 == 0, tagged=False)
+        blocks = [None, [0, n, 0, n, False], [1, n - 1, 0, n, True]]
+        for b in blocks:
+            jobs.append([[[list(map(float, s)) for s in series], ndim, b, {"window": 2} if k % 2 else {}], {}])
+    for env in envs:
+        w = impl.run_worker("omp_vs_serial", jobs, env_extra=env, timeout=600)
+        res.hit("omp_env_" + "_".join("%s=%s" % kv for kv in sorted(env.items())))
+        if w["crashed"]:
+            res.violations.append({"clause": "parallel routine crashed", "env": env, "stderr": w["stderr"][-300:]})
+            continue
+        for job, out in zip(jobs, w["results"]):
+            res.evaluations += 1
+            for run_i, par in enumerate(out["parallel"]):
+                if par != out["serial"]:
+                    bad = [i for i, (a_, b_) in enumerate(zip(par, out["serial"])) if a_ != b_]
+                    res.violations.append({"clause": "the OpenMP matrix equals the serial one whatever team the runtime "
+                                                     "grants", "env": env, "series": job[0][0], "ndim": job[0][1],
+                                           "block": job[0][2], "kw": job[0][3], "run": run_i, "differing_cells": bad[:10]})
+                    break
     return res
 
 
